@@ -572,13 +572,30 @@ func sameFieldLoad(a, b ssa.Value) bool {
 
 // builderCall: one construction of a compare query inside a builder.
 type builderSite struct {
-	fn      *ssa.Function
-	call    *ssa.Call    // the constructor call (or direct allocation)
-	cmpType *types.Named // comparator type constructed
-	valType *types.Named // validator stored into an interface-embedded comparator (DirectEQ), if any
-	valStored ssa.Value  // the value stored as that validator (a conversion to the interface, or a phi of such)
-	left    ssa.Value    // value assigned to the LEFT role
-	right   ssa.Value    // value assigned to the RIGHT role
+	fn                *ssa.Function
+	call              *ssa.Call       // the constructor call (or direct allocation)
+	cmpType           *types.Named    // comparator type constructed
+	valType           *types.Named    // validator stored into an interface-embedded comparator (DirectEQ), if any
+	valStored         ssa.Value       // the value stored as that validator (a conversion to the interface, or a phi of such)
+	left              ssa.Value       // value assigned to the LEFT role
+	right             ssa.Value       // value assigned to the RIGHT role
+	viaPred, viaBlock *ssa.BasicBlock // the comparator is this phi operand: only on paths through this edge
+}
+
+// onPath: the site is constructed on this path.
+func (bs *builderSite) onPath(fp *fnPath) bool {
+	if !fp.contains(bs.call) {
+		return false
+	}
+	if bs.viaPred == nil {
+		return true
+	}
+	for k := 1; k < len(fp.blocks); k++ {
+		if fp.blocks[k] == bs.viaBlock && fp.blocks[k-1] == bs.viaPred {
+			return true
+		}
+	}
+	return false
 }
 
 // queryRoles finds, in the compare-query type, which field is LEFT (its list goes to the comparator) and RIGHT.
@@ -711,25 +728,39 @@ func builderSites(c *engine.Context) []*builderSite {
 				if !ok || call.Call.StaticCallee() != sh.ctor {
 					continue
 				}
-				bs := &builderSite{fn: fn, call: call, left: call.Call.Args[sh.ctorLeft], right: call.Call.Args[sh.ctorRight]}
-				cmp := call.Call.Args[sh.ctorCmp]
-				if mi, ok := cmp.(*ssa.MakeInterface); ok {
-					if pt, ok := mi.X.Type().(*types.Pointer); ok {
-						if nt, ok := pt.Elem().(*types.Named); ok {
-							bs.cmpType = nt
-						}
+				// the comparator may be chosen on the way (a phi of constructed comparators): one site per choice
+				type choice struct {
+					v         ssa.Value
+					pred, blk *ssa.BasicBlock
+				}
+				choices := []choice{{v: call.Call.Args[sh.ctorCmp]}}
+				if ph, isPhi := call.Call.Args[sh.ctorCmp].(*ssa.Phi); isPhi {
+					choices = nil
+					for i, e := range ph.Edges {
+						choices = append(choices, choice{v: e, pred: ph.Block().Preds[i], blk: ph.Block()})
 					}
-					// validator stored into an embedded interface field of the comparator
-					if al, ok := mi.X.(*ssa.Alloc); ok {
-						for _, ref := range *al.Referrers() {
-							if fa, ok := ref.(*ssa.FieldAddr); ok {
-								for _, r2 := range *fa.Referrers() {
-									if st, ok := r2.(*ssa.Store); ok && st.Addr == ssa.Value(fa) {
-										bs.valStored = st.Val
-										if vmi, ok := st.Val.(*ssa.MakeInterface); ok {
-											if vpt, ok := vmi.X.Type().(*types.Pointer); ok {
-												if vnt, ok := vpt.Elem().(*types.Named); ok {
-													bs.valType = vnt
+				}
+				for _, ch := range choices {
+					bs := &builderSite{fn: fn, call: call, left: call.Call.Args[sh.ctorLeft], right: call.Call.Args[sh.ctorRight], viaPred: ch.pred, viaBlock: ch.blk}
+					cmp := ch.v
+					if mi, ok := cmp.(*ssa.MakeInterface); ok {
+						if pt, ok := mi.X.Type().(*types.Pointer); ok {
+							if nt, ok := pt.Elem().(*types.Named); ok {
+								bs.cmpType = nt
+							}
+						}
+						// validator stored into an embedded interface field of the comparator
+						if al, ok := mi.X.(*ssa.Alloc); ok {
+							for _, ref := range *al.Referrers() {
+								if fa, ok := ref.(*ssa.FieldAddr); ok {
+									for _, r2 := range *fa.Referrers() {
+										if st, ok := r2.(*ssa.Store); ok && st.Addr == ssa.Value(fa) {
+											bs.valStored = st.Val
+											if vmi, ok := st.Val.(*ssa.MakeInterface); ok {
+												if vpt, ok := vmi.X.Type().(*types.Pointer); ok {
+													if vnt, ok := vpt.Elem().(*types.Named); ok {
+														bs.valType = vnt
+													}
 												}
 											}
 										}
@@ -738,8 +769,8 @@ func builderSites(c *engine.Context) []*builderSite {
 							}
 						}
 					}
+					out = append(out, bs)
 				}
-				out = append(out, bs)
 			}
 		}
 	}
@@ -780,7 +811,7 @@ func ruleVLiteral(c *engine.Context) *report.Rule {
 			}
 			seenPath := false
 			for _, fp := range paths {
-				if !fp.contains(bs.call) {
+				if !bs.onPath(fp) {
 					continue
 				}
 				var kind string
@@ -864,7 +895,7 @@ func ruleVLiteral(c *engine.Context) *report.Rule {
 				break
 			}
 			for _, fp := range paths {
-				if !fp.contains(bs.call) {
+				if !bs.onPath(fp) {
 					continue
 				}
 				r.Instances++
@@ -962,7 +993,7 @@ func ruleVOps(c *engine.Context) *report.Rule {
 			ordered = true
 			r.Instances++
 			for _, fp := range paths {
-				if !fp.contains(bs.call) {
+				if !bs.onPath(fp) {
 					continue
 				}
 				l, rr := fp.resolve(bs.left), fp.resolve(bs.right)
@@ -1120,7 +1151,7 @@ func ruleVSingleRight(c *engine.Context) *report.Rule {
 		}
 		paths, _ := enumPaths(bs.fn, 64)
 		for _, fp := range paths {
-			if !fp.contains(bs.call) {
+			if !bs.onPath(fp) {
 				continue
 			}
 			r.Instances++
